@@ -329,6 +329,26 @@ func (tree *HTree) getReq(req *HTreeReq) (found bool) {
 	return
 }
 
+// updatePos repoints the item of ki to newPos only if it still points at oldPos,
+// atomically with respect to set/remove (used by GC, which must not undo a
+// client write that slipped in after it decided to move the record).
+func (tree *HTree) updatePos(ki *KeyInfo, oldPos, newPos Position) (found, updated bool) {
+	tree.Lock()
+	defer tree.Unlock()
+	var req HTreeReq
+	req.ki = ki
+	ni := &tree.ni
+	tree.getLeaf(ki, ni)
+	found = tree.leafs[ni.offset].Get(&req)
+	if !found || req.item.Pos != oldPos {
+		return
+	}
+	req.item.Pos = newPos
+	tree.leafs[ni.offset].Set(&req)
+	updated = true
+	return
+}
+
 func (tree *HTree) Update() (node *Node) {
 	tree.Lock()
 	defer tree.Unlock()
